@@ -1,0 +1,5 @@
+//go:build !verif
+
+package names
+
+func hook(event, table string) {}
